@@ -1025,10 +1025,13 @@ int asn1_object_identifier_to_octets(const uint32_t *nodes, size_t nodes_cnt, ui
 		error_print();
 		return -1;
 	}
-	if (out) {
-		*out++ = (uint8_t)(nodes[0] * 40 + nodes[1]);
+	// X.690 8.19.4: the first subidentifier is 40*X + Y, X in {0,1,2}, Y < 40 unless X == 2
+	if (nodes[0] > 2 || (nodes[0] < 2 && nodes[1] > 39) || nodes[1] > 0xffffffff - nodes[0] * 40) {
+		error_print();
+		return -1;
 	}
-	(*outlen) = 1;
+	(*outlen) = 0;
+	asn1_oid_node_to_base128(nodes[0] * 40 + nodes[1], &out, outlen);
 	nodes += 2;
 	nodes_cnt -= 2;
 
@@ -1045,12 +1048,25 @@ int asn1_object_identifier_from_octets(uint32_t *nodes, size_t *nodes_cnt, const
 		return -1;
 	}
 
-	if (nodes) {
-		*nodes++ = (*in) / 40;
-		*nodes++ = (*in) % 40;
+	{
+		uint32_t first;
+		if (asn1_oid_node_from_base128(&first, &in, &inlen) < 0) {
+			error_print();
+			return -1;
+		}
+		if (nodes) {
+			if (first < 40) {
+				*nodes++ = 0;
+				*nodes++ = first;
+			} else if (first < 80) {
+				*nodes++ = 1;
+				*nodes++ = first - 40;
+			} else {
+				*nodes++ = 2;
+				*nodes++ = first - 80;
+			}
+		}
 	}
-	in++;
-	inlen--;
 	*nodes_cnt = 2;
 
 	while (inlen) {
